@@ -60,6 +60,8 @@ type ProxyParams struct {
 	BoltGoAway   bool         // C11: the bolt listener announces the stop with a go-away frame (enable_bolt_goaway)
 	LocalErr     bool         // some requests ask for a service that has no route, or whose cluster has no host: MOSN answers itself
 	UpIdleS      int          // cluster idle_timeout in seconds (0 = not configured): MOSN closes idle upstream connections itself
+	ClientHB     bool         // xprotocol clients send heartbeat requests of their own between their requests (MOSN answers them itself)
+	IgnoreHB     bool         // xprotocol upstreams never answer MOSN's heartbeats (its keep-alive gives the connection up)
 	ShutdownMs   int          // C11: graceful stop is requested at this instant (0 = never)
 	DrainMs      int          // C11: drain timeout
 }
@@ -72,37 +74,38 @@ type Proxy struct {
 	P    ProxyParams
 	Prop string
 
-	codec        peers.XCodec
-	clients      []*peers.XClient
-	ups          []*peers.XUpstream
-	h1clients    []*peers.H1Client
-	h1ups        []*peers.H1Upstream
-	h2clients    []*peers.H2Client
-	h2ups        []*peers.H2Upstream
-	h2UpOpts     peers.H2Opts
-	dialMu       sync.Mutex
-	garbage      []*peers.GarbageClient
-	garbageTok   map[string]bool
-	allocBase    uint64
-	allocWatch   int
-	probe        []*peers.ReqRec
-	probeRound   int
-	probeCl      *peers.XClient
-	hostAddrs    []string
-	lisAddr      string
-	hostMode     map[string]int // 0 accept, 1 refuse, 2 blackhole
-	finished     bool
-	finalAt      time.Duration
-	finalSet     bool
-	lastSend     time.Duration
-	sendsPending int
-	cfgJSON      []byte
-	Stats        map[string]int
-	mosn         *mosn.Mosn
-	sigAt        time.Duration // C11: when the stop was requested
-	shutRet      time.Duration // when Mosn.Shutdown returned
-	closeRet     time.Duration // when Mosn.Close returned
-	phase        map[int]string
+	codec            peers.XCodec
+	clients          []*peers.XClient
+	ups              []*peers.XUpstream
+	h1clients        []*peers.H1Client
+	h1ups            []*peers.H1Upstream
+	h2clients        []*peers.H2Client
+	h2ups            []*peers.H2Upstream
+	h2UpOpts         peers.H2Opts
+	dialMu           sync.Mutex
+	garbage          []*peers.GarbageClient
+	garbageTok       map[string]bool
+	allocBase        uint64
+	allocWatch       int
+	probe            []*peers.ReqRec
+	probeRound       int
+	probeRefusedBase int
+	probeCl          *peers.XClient
+	hostAddrs        []string
+	lisAddr          string
+	hostMode         map[string]int // 0 accept, 1 refuse, 2 blackhole
+	finished         bool
+	finalAt          time.Duration
+	finalSet         bool
+	lastSend         time.Duration
+	sendsPending     int
+	cfgJSON          []byte
+	Stats            map[string]int
+	mosn             *mosn.Mosn
+	sigAt            time.Duration // C11: when the stop was requested
+	shutRet          time.Duration // when Mosn.Shutdown returned
+	closeRet         time.Duration // when Mosn.Close returned
+	phase            map[int]string
 }
 
 func pickFrom[T any](ch *sim.Choices, stream, label string, opts []T) T {
@@ -256,6 +259,19 @@ func DrawProxyParams(ch *sim.Choices, prop string) ProxyParams {
 			}
 		}
 	}
+	switch prop {
+	case "C01", "C02", "C03", "C09", "C10":
+		hbOK := true
+		for _, x := range p.Protos {
+			if x != "bolt" && x != "boltv2" && x != ppName && x != "dubbo" {
+				hbOK = false
+			}
+		}
+		if hbOK {
+			p.ClientHB = ch.Chance("params", "clienthb", 1, 3)
+			p.IgnoreHB = p.Faults && ch.Chance("params", "ignorehb", 1, 4)
+		}
+	}
 	return p
 }
 
@@ -273,7 +289,9 @@ func protoChoices(prop string) []string {
 		return []string{"bolt", "http1", "boltpp", "boltv2", "dubbo", "http2", "tars", "dubbo-thrift", "tcp", "h1h2"}
 	case "C08", "C07":
 		return []string{"bolt", "http1", "boltpp", "boltv2", "dubbo", "http2", "tars", "dubbo-thrift"}
-	case "C03", "C10":
+	case "C10":
+		return []string{"bolt", "http1", "boltpp", "boltv2", "dubbo", "http2", "tcp"}
+	case "C03":
 		return []string{"bolt", "http1", "boltpp", "boltv2", "dubbo", "http2"}
 	case "C02":
 		return []string{"bolt", "http1", "boltpp", "boltv2", "dubbo", "http2"}
@@ -397,7 +415,9 @@ func (w *Proxy) buildConfig() []byte {
 	var extraClusters []J
 	if p.LocalErr {
 		// only services named svc* are routed; "empty" is routed to a cluster that has no host
-		svcMatch := []J{{"name": "service", "value": "svc.*", "regex": true}}
+		// (a second matcher, which every request satisfies: MOSN treats a lone matcher on "service" as an exact
+		// comparison — "compatible for old version" — whatever its regex flag says)
+		svcMatch := []J{{"name": "service", "value": "svc.*", "regex": true}, {"name": "service", "value": ".+", "regex": true}}
 		emptyMatch := J{"headers": []J{{"name": "service", "value": "empty"}}}
 		if _, isPrefix := match["prefix"]; isPrefix {
 			match = J{"prefix": "/", "headers": svcMatch}
@@ -624,6 +644,37 @@ func (w *Proxy) Setup() error {
 			}
 		}
 	}
+	if p.Faults && !p.NoRefuse && p.Proto != "http2" && ch.Chance("params", "outage", 1, 4) {
+		// a host restarts: from t1 on it refuses connections (and, drawn, drops the ones it has), from t2 on
+		// it accepts again
+		a := w.hostAddrs[ch.Pick("params", "outagehost", len(w.hostAddrs))]
+		if w.hostMode[a] == 0 {
+			t1 := pickFrom(ch, "params", "outageat", []time.Duration{5 * time.Millisecond, 30 * time.Millisecond, 120 * time.Millisecond, 400 * time.Millisecond})
+			t2 := t1 + pickFrom(ch, "params", "outagefor", []time.Duration{20 * time.Millisecond, 200 * time.Millisecond, time.Second, 4 * time.Second})
+			drop, rst := ch.Bool("params", "outagedrop"), ch.Bool("params", "outagerst")
+			s.At(t1, "outage:begin", func() {
+				s.Fault("host_outage")
+				w.hostMode[a] = 1
+				s.Logf("host %s goes down (drops its connections: %v)", a, drop)
+				if !drop {
+					return
+				}
+				for _, c := range w.N.Conns {
+					if c.Role == "up" && c.Open() && c.Tag == a {
+						if rst {
+							c.PeerReset()
+						} else {
+							c.PeerClose()
+						}
+					}
+				}
+			})
+			s.At(t2, "outage:end", func() { w.hostMode[a] = 0; s.Logf("host %s is back", a) })
+			if t2 > w.lastSend {
+				w.lastSend = t2
+			}
+		}
+	}
 	// exploration yields: a random subset of sites per run (swarm)
 	if ch.Bool("params", "xsites") {
 		for _, site := range XSites {
@@ -788,7 +839,14 @@ func (w *Proxy) final() {
 	}
 	w.checkC09Idle()
 	w.checkC10Idle()
-	if k := w.probeSize(); k > 0 {
+	k := w.probeSize()
+	if k == 0 && w.probeOK() && (w.Prop == "C09" || w.Prop == "C10" || w.Prop == "C03") {
+		// no limit configured: a few fresh requests all the same — every pool must still (or again) be usable
+		w.startProbe(w.P.NHosts+1, 5*time.Millisecond)
+		w.S.After(3*time.Second, "probe-check", func() { w.checkProbe(0); w.finish() })
+		return
+	}
+	if k > 0 {
 		w.startProbe(k, 5*time.Millisecond)
 		w.S.After(3*time.Second, "probe-check", func() {
 			w.checkProbe(k)
@@ -846,6 +904,23 @@ func fixedFields(proto string, h uint64) []byte {
 // tripHold: how long the upstreams hold each request of the threshold probe
 const tripHold = 300 * time.Millisecond
 
+// probeOK: a capacity probe makes sense in this run
+func (w *Proxy) probeOK() bool {
+	p := w.P
+	if p.Proto != "http1" && peers.CodecFor(p.Proto) == nil {
+		return false // the probe speaks HTTP/1 or an xprotocol
+	}
+	if p.Proto == "tars" || p.Proto == "dubbo-thrift" || p.Auto || p.LocalErr || p.Acts != nil || len(p.Filters) > 0 {
+		return false
+	}
+	for _, m := range w.hostMode {
+		if m != 0 {
+			return false // a refusing host would fail probe requests for reasons unrelated to capacity
+		}
+	}
+	return len(w.S.Violations) == 0
+}
+
 func (w *Proxy) probeSize() int {
 	p := w.P
 	if p.Proto != "http1" && peers.CodecFor(p.Proto) == nil {
@@ -869,6 +944,7 @@ func (w *Proxy) probeSize() int {
 func (w *Proxy) startProbe(k int, upDelay time.Duration) {
 	s := w.S
 	s.Logf("capacity probe: %d concurrent requests (upstream answers after %v)", k, upDelay)
+	w.probeRefusedBase = w.N.DialsRefused
 	w.probe = nil
 	w.probeRound++
 	for i := 0; i < k; i++ {
@@ -915,6 +991,12 @@ func (w *Proxy) checkProbe(k int) {
 			}
 		}
 		if !overflow {
+			// ... or turned away by MOSN itself, without any attempt to send it and without any connect having been
+			// refused, although every host accepts connections: a pool that is of no use any more
+			if w.probeOK() && len(r.Replies) >= 1 && r.Replies[0].Tok == "" && !r.Replies[0].Success && len(r.Upstream) == 0 && w.N.DialsRefused == w.probeRefusedBase && w.N.DialsBlackholed == 0 {
+				w.S.Violate("C09", "pool_unusable_at_idle", "at idle, with every host accepting connections, fresh request req#%d was answered by MOSN itself (status %d) within 3 s without having been sent to any host and without any connect having failed: a pool slot no longer reflects the state of its connection", r.Idx, r.Replies[0].Status)
+				return
+			}
 			continue
 		}
 		snap := cluster.GetClusterMngAdapterInstance().ClusterManager.GetClusterSnapshot(context.Background(), "c0")
@@ -1153,6 +1235,24 @@ func (w *Proxy) setupXClient(ci int, proto string, reqIdxP *int) {
 				w.lastSend = tt
 			}
 		}
+		if p.ClientHB {
+			// heartbeat requests of the client's own, in the middle of its requests (ids of their own range)
+			for j, n := 0, 1+ch.Pick("work", "nhb", 3); j < n; j++ {
+				id := idBase + 500 + uint64(j)
+				ht := t0 + pickFrom(ch, "work", "hbat", []time.Duration{0, time.Millisecond, 10 * time.Millisecond, 100 * time.Millisecond, 300 * time.Millisecond, t - t0, t - t0 + time.Millisecond})
+				w.sendsPending++
+				s.At(ht, fmt.Sprintf("send:hb:%s:%d", cl.Name, j), func() {
+					w.sendsPending--
+					if cl.Conn != nil {
+						s.Fault("w:client_heartbeat")
+						cl.SendHB(id)
+					}
+				})
+				if ht > w.lastSend {
+					w.lastSend = ht
+				}
+			}
+		}
 		if p.ClientLeaves && ch.Chance("work", "leave", 1, 2) {
 			lt := t0 + time.Duration(ch.Pick("work", "leaveat", 600))*time.Millisecond
 			rst := ch.Bool("work", "leaverst")
@@ -1300,6 +1400,12 @@ func (w *Proxy) setupH1Client(ci int, reqIdxP *int) {
 				}
 				m.Body = body
 				m.Chunked = ch.Chance("work", "chunked", 1, 4)
+				if (w.Prop == "C01" || w.Prop == "C02" || w.Prop == "C07") && ch.Chance("work", "expect", 1, 6) {
+					// the client announces the body and waits for MOSN's interim response before sending it
+					m.Headers = append(m.Headers, peers.KV{K: "Expect", V: "100-continue"})
+					r.Extra["expect"] = "1"
+					s.Fault("w:expect_100_continue")
+				}
 			}
 			r.Frame = peers.BuildH1(m)
 			r.HReq = m
@@ -1362,7 +1468,7 @@ func (a *autoUp) OnData(c *sim.Conn, b []byte) {
 			if b[0] == 0xda {
 				proto = "dubbo"
 			}
-			u := &peers.XUpstream{S: w.S, H: w.H, Codec: peers.CodecFor(proto), Host: a.host, ReplyBuilder: w.replyBuilder}
+			u := &peers.XUpstream{S: w.S, H: w.H, Codec: peers.CodecFor(proto), Host: a.host, ReplyBuilder: w.replyBuilder, IgnoreHB: w.P.IgnoreHB}
 			u.OnConnect(c)
 			w.ups = append(w.ups, u)
 			a.impl = u
